@@ -156,7 +156,18 @@ def g_C10(tier):
             'samples': [{'dependency_fact': f} for f in facts]}
 
 
-G_PROPS = {'C15': g_C15, 'C02': g_C02, 'C10': g_C10}
+def g_profile(tier):
+    from . import gsrc
+    files = gsrc.generator_files()
+    inst, viol = gsrc.g_profile(files)
+    findings = [{'rule': 'G-PROFILE', 'site': f"{v['file']}::{v['fn']}::{v['token']}", 'what': v['what'], 'detail': v} for v in viol]
+    return {'instances': {'G-PROFILE quote! bodies scanned': inst}, 'findings': findings, 'floor': ('G-PROFILE quote! bodies scanned', inst, 200), 'samples': []}
+
+
+# the E-level rules see the dev-profile expansion only: the properties about what constructors / conversions / orderings do
+# additionally require that the generated code has no profile-dependent branch at all
+G_PROPS = {'C15': g_C15, 'C02': g_C02, 'C10': g_C10, 'C01': g_profile, 'C03': g_profile, 'C04': g_profile, 'C05': g_profile,
+           'C06': g_profile, 'C09': g_profile, 'C12': g_profile}
 
 # which corpus crates / declarations a property looks at (default: every declaration of std crates + nostd)
 SELECT = {
